@@ -88,9 +88,14 @@ theorem enterCall_returned_le (env : Env) (ctx : Ctx) (kind : Kind) (addr : Addr
   · split
     · exact Nat.le_refl _
     · refine Nat.le_trans (callExit_returned_le _ _) ?_
+      unfold calleeRes runPrecompile
       split
-      · exact Nat.le_refl _
-      · exact hrun _ _ _ _
+      · split
+        · exact Nat.le_refl _
+        · exact Nat.sub_le _ _
+      · split
+        · exact Nat.le_refl _
+        · exact hrun _ _ _ _
 
 theorem enterCreate_returned_le (env : Env) (ctx : Ctx) (addr : Addr) (value gas : Nat) (w : World)
     (tr : List Ev) (run : Ctx → Nat → World → List Ev → Res)
